@@ -427,24 +427,24 @@ End Gen.
 Theorem bbox_contains_shape_labels_slack d s pos lw lh :
   In s (d_shapes d) -> s_label s = Some (pos, lw, lh) -> s_3d s = false -> s_mult s = false ->
   forall r, In r (label_extents s) ->
-    inside r (grow 1 (bbox d))
-    /\ (let '(px, py) := draw_label_tl s pos lw lh in Z.even px = true -> Z.even py = true -> inside r (bbox d)).
+    inside r (grow 1 (bbox_pinned d))
+    /\ (let '(px, py) := draw_label_tl s pos lw lh in Z.even px = true -> Z.even py = true -> inside r (bbox_pinned d)).
 Proof.
-  intros Hs Hl H3 Hm. apply (bbox_contains_shape_labels_gen bbox_label_tl d s pos lw lh Hs Hl).
-  intros _. unfold draw_label_tl, bbox_label_tl. rewrite H3, Hm.
+  intros Hs Hl H3 Hm. apply (bbox_contains_shape_labels_gen pinned_label_tl d s pos lw lh Hs Hl).
+  intros _. unfold draw_label_tl, pinned_label_tl. rewrite H3, Hm.
   destruct (point_on_box pos (s_x s) (s_y s) (s_w s) (s_h s) LABEL_PADDING lw lh); reflexivity.
 Qed.
 
 (* repaired code (coq/C29/fix.patch): every outside / border label, also on 3D shapes and shapes with multiple
    copies, is inside the reported box up to the truncation pixel *)
-Theorem bbox_fixed_contains_shape_labels d s pos lw lh :
+Theorem bbox_contains_shape_labels d s pos lw lh :
   In s (d_shapes d) -> s_label s = Some (pos, lw, lh) ->
   forall r, In r (label_extents s) ->
-    inside r (grow 1 (bbox_fixed d))
-    /\ (let '(px, py) := draw_label_tl s pos lw lh in Z.even px = true -> Z.even py = true -> inside r (bbox_fixed d)).
+    inside r (grow 1 (bbox d))
+    /\ (let '(px, py) := draw_label_tl s pos lw lh in Z.even px = true -> Z.even py = true -> inside r (bbox d)).
 Proof.
-  intros Hs Hl. apply (bbox_contains_shape_labels_gen fixed_label_tl d s pos lw lh Hs Hl).
-  intro O. unfold fixed_label_tl. rewrite O. reflexivity.
+  intros Hs Hl. apply (bbox_contains_shape_labels_gen bbox_label_tl d s pos lw lh Hs Hl).
+  intro O. unfold bbox_label_tl. rewrite O. reflexivity.
 Qed.
 
 (* ---- the unguarded statements are false on the faithful model ---- *)
@@ -455,7 +455,7 @@ Definition w_shape (mult : bool) (icon : option (N * Z * Z)) (label : option (N 
 
 (* outside-top label on a shape with multiple copies: drawn 10 px above the reported box *)
 Theorem multiple_outside_label_refuted :
-  exists d s r, In s (d_shapes d) /\ In r (label_extents s) /\ ~ inside r (grow 1 (bbox d)).
+  exists d s r, In s (d_shapes d) /\ In r (label_extents s) /\ ~ inside r (grow 1 (bbox_pinned d)).
 Proof.
   exists {| d_shapes := [w_shape true None (Some (2%N, 40, 21))]; d_conns := [] |}.
   exists (w_shape true None (Some (2%N, 40, 21))). eexists. split; [left; reflexivity|].
